@@ -85,6 +85,20 @@ def fixed_path_arg(run, rel, body):
     return c_unescape(mm.group(1)) if mm else b""
 
 
+# "the message is empty": strlen(logMessage) == 0 or logMessage[0] == '\\0' (or *logMessage), either operand order
+EMPTY_MSG = (r"if\s*\(\s*(?:0\s*==\s*strlen\s*\(\s*logMessage\s*\)|strlen\s*\(\s*logMessage\s*\)\s*==\s*0|'\\0'\s*==\s*logMessage\s*\[\s*0\s*\]|logMessage\s*\[\s*0\s*\]\s*==\s*'\\0'"
+             r"|'\\0'\s*==\s*\*\s*logMessage|\*\s*logMessage\s*==\s*'\\0'|!\s*logMessage\s*\[\s*0\s*\]|!\s*\*\s*logMessage)\s*\)")
+
+
+def preprocessed_src(run, rel):
+    import subprocess
+    cmd = ["gcc", "-E", "-P", "-std=c99", "-DHAVE_CONFIG_H", "-D_GNU_SOURCE", "-w", "-I" + run.tree, "-I" + os.path.join(run.tree, "src")] + run.inih_defs() + [os.path.join(run.tree, rel)]
+    p = subprocess.run(cmd, stdout=subprocess.PIPE, stderr=subprocess.PIPE, text=True, errors="replace")
+    if p.returncode != 0:
+        raise RuntimeError(p.stderr[-500:])
+    return p.stdout
+
+
 def tr_output(run):
     notes = run.notes
     v = {}
@@ -144,9 +158,14 @@ def tr_output(run):
     # socket
     so = strip_comments(run.src("src/output/socketoutput.c"))
     sb = resolve_locals(reachable_body(so, "snoopy_output_socketoutput") or "")
-    socks = re.findall(r"socket\s*\(\s*AF_LOCAL\s*,\s*([A-Z_|\s]+?)\s*,\s*0\s*\)", sb)
-    # the glibc<2.9 branch is not compiled here: take the #else branch (last occurrence)
-    sflags = set(x.strip() for x in socks[-1].split("|")) if socks else set()
+    # flags as the compiler sees them: the preprocessed function (file-local macros and #if branches resolved; the SOCK_* names survive -E
+    # because glibc defines them as enumerators)
+    try:
+        spp = resolve_locals(reachable_body(preprocessed_src(run, "src/output/socketoutput.c"), "snoopy_output_socketoutput") or "")
+    except Exception:
+        spp = ""
+    socks = re.findall(r"socket\s*\(\s*[\w()]+\s*,\s*([A-Za-z_|\s()]+?)\s*,\s*0\s*\)", spp)
+    sflags = set(x.strip(" ()") for x in socks[-1].split("|")) if len(socks) == 1 else set()
     v["sock_nonblock"] = "SOCK_NONBLOCK" in sflags and "SOCK_DGRAM" in sflags
     v["sock_cloexec"] = "SOCK_CLOEXEC" in sflags
     m = re.search(r"send\s*\(\s*\w+\s*,\s*logMessage\s*,\s*strlen\s*\(\s*logMessage\s*\)\s*,\s*([A-Z_|\s]+?)\s*\)", sb)
@@ -155,10 +174,14 @@ def tr_output(run):
     v["send_nosignal"] = "MSG_NOSIGNAL" in snd
     m = re.search(r"#\s*define\s+PATH_SIZE\s+(\d+)", so)
     v["sock_path_size"] = int(m.group(1)) if m and re.search(r"strncpy\s*\(\s*remote\.sun_path\s*,\s*arg\s*,\s*PATH_SIZE\s*\)", sb) else 0
-    v["sock_skips_empty"] = bool(re.search(r"if\s*\(\s*0\s*==\s*strlen\s*\(\s*logMessage\s*\)\s*\)\s*\{\s*return\s+SNOOPY_OUTPUT_GRACEFUL_DISCARD", sb))
+    v["sock_skips_empty"] = bool(re.search(EMPTY_MSG + r"\s*\{\s*return\s+SNOOPY_OUTPUT_GRACEFUL_DISCARD", sb))
     # devlog
     dv = strip_comments(run.src("src/output/devlogoutput.c"))
     db = func_body(dv, "snoopy_output_devlogoutput") or ""
+    # a local that only names the priority expression is substituted back
+    mp = re.search(r"(?:const\s+)?int\s+(?:const\s+)?(\w+)\s*=\s*(CFG->syslog_facility\s*\|\s*CFG->syslog_level)\s*;", db)
+    if mp and len(re.findall(r"\b%s\s*=(?!=)" % re.escape(mp.group(1)), db)) == 1:
+        db = db[:mp.start()] + re.sub(r"\b%s\b" % re.escape(mp.group(1)), mp.group(2), db[mp.end():])
     m = re.search(r"snprintf\s*\(\s*logMessageWithPrefix\s*,\s*logMessageWithPrefixSize\s*,\s*" + STR + r"\s*,\s*CFG->syslog_facility\s*\|\s*CFG->syslog_level\s*,\s*([^,]+),\s*syslogIdent\s*,\s*getpid\s*\(\s*\)\s*,\s*logMessage\s*\)", db)
     v["devlog_fmt"] = parse_fmt(c_unescape(m.group(1))) if m else None
     v["devlog_prec"] = cpp_value(run, m.group(2).strip(), includes=("limits.h", "snoopy.h")) if m else 0
@@ -167,7 +190,7 @@ def tr_output(run):
     v["devlog_ident_buf"] = cpp_value(run, "SNOOPY_SYSLOG_IDENT_FORMAT_BUF_SIZE", includes=("limits.h", "snoopy.h")) or 0
     m3 = re.search(r"snoopy_output_socketoutput\s*\(\s*logMessageWithPrefix\s*,\s*" + STR + r"\s*\)", db)
     v["devlog_path"] = c_unescape(m3.group(1)) if m3 else b""
-    v["devlog_skips_empty"] = bool(re.search(r"if\s*\(\s*0\s*==\s*strlen\s*\(\s*logMessage\s*\)\s*\)\s*\{\s*return\s+SNOOPY_OUTPUT_GRACEFUL_DISCARD", db))
+    v["devlog_skips_empty"] = bool(re.search(EMPTY_MSG + r"\s*\{\s*return\s+SNOOPY_OUTPUT_GRACEFUL_DISCARD", db))
     if v["devlog_prec"] is None:
         v["devlog_prec"] = 0
     fields = [
